@@ -168,6 +168,13 @@ def classify0(x):
         d, f = bad.get("dig", []), bad.get("fresh", [])
         if len(d) == 6 and d[1:] == f[1:] and d[0] != f[0]:
             return KNAME, f"{bad['e']} seq={bad.get('seq')}: only the section NAME bytes differ from the fresh run: {bad.get('diff', '')[:260]}; {where}"
+        if d[:5] == f[:5] and x.get("definer"):
+            dd = next((r for r in x["definer"] if r.get("e") in ("Gen", "Seal") and r.get("seq") == bad.get("seq")), {})
+            names = ["sections", "labels", "relocs", "addrtab", "image"]
+            comps = [names[i] for i in range(5) if dd.get("dig", [None] * 5)[i] != d[i]]
+            return f"config:{'+'.join(comps)}:" + "+".join(f"{k}{p}" for k, p in bad.get("seq", [])), \
+                f"{bad['e']} seq={bad.get('seq')}: the {'/'.join(comps)} digest equals the fresh run of this process but differs from the execution of the same calls " \
+                f"under cfg={json.dumps(x['definer'][0].get('cfg'))} (output depends on the configuration); {where}"
         comp = (bad.get("diff", "?").split(" ") or ["?"])[0]
         return f"digest:{comp}:" + "+".join(f"{k}{p}" for k, p in bad.get("seq", [])), \
             f"{bad['e']} seq={bad.get('seq')} r={bad.get('r')}/{bad.get('fr')}: {bad.get('diff', 'digest differs from an earlier execution of the same calls')[:400]}; {where}"
@@ -242,7 +249,22 @@ def validate_shards(ctx, tcfg, traces, tag, nshards, timeout):
         try:
             p = ctx.path(f"{tag}_shard{k}.ndjson")
             vlib.write_ndjson(p, [r for e in shards[k] for r in e])
-            rej.extend(vlib.validate_executions(ctx, MOD_T, tcfg, p, tag=f"{tag}{k}", timeout=timeout, heap="3g", max_rejects=2))
+            # confirm=False: a rejection may depend on an EARLIER execution of the shard (ghost `expected`: same calls, other
+            # configuration), so it need not repeat in isolation; TLC is deterministic on the same file
+            rr = vlib.validate_executions(ctx, MOD_T, tcfg, p, tag=f"{tag}{k}", timeout=timeout, heap="3g", max_rejects=2, confirm=False)
+            for x in rr:
+                bad = x["records"][x["index"]] if x["index"] < len(x["records"]) else {}
+                if x["inv"] == "OutputIsFunctionOfCalls" and bad.get("dig") and bad["dig"][:5] == bad.get("fresh", [])[:5]:
+                    # differs only from what an earlier execution logged for the same calls: keep that execution for the replay
+                    key = (x["records"][0]["cfg"]["arch"], x["records"][0]["cfg"].get("base"), json.dumps(bad.get("seq")))
+                    for e in shards[k]:
+                        if e is x["records"] or e == x["records"]:
+                            break
+                        if e and e[0].get("e") == "Reset" and (e[0]["cfg"]["arch"], e[0]["cfg"].get("base")) == key[:2] and \
+                                any(r.get("e") in ("Gen", "Seal") and json.dumps(r.get("seq")) == key[2] for r in e):
+                            x["definer"] = e
+                            break
+            rej.extend(rr)
         except Exception as ex:  # noqa
             errs.append(ex)
     th = [threading.Thread(target=work, args=(k,)) for k in range(len(shards))]
@@ -368,7 +390,7 @@ def run(ctx):
             if key in reported:
                 continue
             reported.add(key)
-            rp = keep(ctx, f"violation_{tag}_{len(ctx.violations)}.ndjson", x["records"])
+            rp = keep(ctx, f"violation_{tag}_{len(ctx.violations)}.ndjson", (x.get("definer") or []) + x["records"])
             ctx.violation(f"[{x['inv'] or 'trace rejected'}] suggested key={key}: {text}", rp)
     ctx.evaluations = nrec
 
@@ -406,15 +428,15 @@ def run(ctx):
 def replay(ctx, path):
     """re-execute the recorded history on the current tree (both builds) and validate unmasked except for listed findings"""
     recs = vlib.read_ndjson(path)
-    script = recs_to_script(recs)
+    scripts = [recs_to_script(e) for e in vlib.split_executions(recs) if e and e[0].get("e") == "Reset"]
     known = {k for k in ctx.known if k in MASKABLE}
     tcfg = trace_cfg(ctx, known)
     for fl in ("asan", "plain"):
         b = ctx.build(fl, "lifecycle")
         s, t = ctx.path(f"replay_{fl}.ndjson"), ctx.path(f"replay_{fl}_trace.ndjson")
-        vlib.write_ndjson(s, [script])
+        vlib.write_ndjson(s, scripts)
         vlib.record_trace(ctx, b, "lifecycle", ["script", s, t], t, timeout=600)
-        rej = vlib.validate_executions(ctx, MOD_T, tcfg, t, tag=f"replay_{fl}")
+        rej = vlib.validate_executions(ctx, MOD_T, tcfg, t, tag=f"replay_{fl}", confirm=False)
         for x in rej:
             key, text = classify(x, known)
             if key in ctx.known:
